@@ -400,7 +400,7 @@ under which the model's choosers reproduce the real output; here the Lean model 
 `optimize stableSort t p rs` must return exactly the real DNA. -/
 def judgeReplay (spec : String) (p : Str) (out : List String) : Verdict :=
   match out with
-  | ["ok", reported, st, dna, found, _off, rs] =>
+  | ["ok", reported, st, dna, found, _off, rs, touched] =>
     match tableOf spec reported with
     | none => { corr := false, judge := none, cls := "bad-spec" }
     | some (t, k) =>
@@ -410,11 +410,16 @@ def judgeReplay (spec : String) (p : Str) (out : List String) : Verdict :=
       let replayed := found == "1" && draws.length == p.length &&
         decide (DrawsOK (chooserMap stableSort t) p draws) &&
         optimize stableSort t p draws == some (.ok dna.toList)
-      let corr := tableSame k reported && st == ms && (st != "ok" || replayed)
+      -- Optimize did not touch the global generator: it draws from a generator of its own, no seed can be recovered;
+      -- fall back to the membership test (the frequency / union / pair cases then carry the proportionality clause)
+      let ownGenerator := st == "ok" && found != "1" && touched == "0"
+      let corr := tableSame k reported && st == ms &&
+        (st != "ok" || replayed || (ownGenerator && modelMember t p dna.toList))
       let enc := specEncodable t p
       let j := if enc && !p.isEmpty then runOk t k p run else st == "err"
       { corr := corr, judge := if decide (WF t) then some j else none,
-        cls := "replay/" ++ kindTag k ++ "/" ++ (if st != "ok" then "no-run" else if found == "1" then "seed-found" else "SEED-NOT-FOUND"),
+        cls := "replay/" ++ kindTag k ++ "/" ++ (if st != "ok" then "no-run" else if found == "1" then "seed-found"
+                else if ownGenerator then "OWN-GENERATOR-membership-only" else "SEED-NOT-FOUND"),
         detail := if corr && j then "" else "model status " ++ ms ++ "; replay of the model on the reported draws " ++
           (if replayed then "reproduces" else "DOES NOT reproduce") ++ " the output" }
   | st :: _ => { corr := false, judge := none, cls := "request-" ++ st }
